@@ -299,8 +299,8 @@ fn mirror_case(s: &mut Session, gen: &'static str, ws: &Wires, ps: &Pads, total:
         (Ok(mut b), Ok(mut m)) => {
             *total += b.len();
             // pair by (t, phi, amplitudes), then by z / -z
-            b.sort_by(|x, y| key(x).cmp(&key(y)).then(x.z.value.partial_cmp(&y.z.value).unwrap()));
-            m.sort_by(|x, y| key(x).cmp(&key(y)).then((-x.z.value).partial_cmp(&(-y.z.value)).unwrap()));
+            b.sort_by(|x, y| key(x).cmp(&key(y)).then(x.z.value.total_cmp(&y.z.value)));
+            m.sort_by(|x, y| key(x).cmp(&key(y)).then((-x.z.value).total_cmp(&(-y.z.value))));
             if b.len() != m.len() {
                 Some(format!("mirror image has {} avalanches, original {}", m.len(), b.len()))
             } else {
@@ -431,17 +431,18 @@ pub fn generate(s: &mut Session, thorough: bool) -> bool {
     // and last rows, inputs of differing lengths
     let phi_to_wire0: HashMap<u64, usize> =
         (0..n).map(|w| (TpcWirePosition::try_from(w).unwrap().phi().to_bits(), w)).collect();
+    let mut match_total = 0usize;
     for i in 0..(if thorough { 4000 } else { 300 }) {
         let col = rng.below(TPC_PAD_COLUMNS as u64) as usize;
         let w0 = verif_pad_column_to_wires(col).start;
         let tmax = rng.range(1, 12) as usize;
         let mut wire_inputs: [Vec<f64>; 8] = std::array::from_fn(|_| Vec::new());
         for wi in wire_inputs.iter_mut() {
-            let len = rng.below(tmax as u64 + 1) as usize;
+            let len = if rng.below(3) == 0 { rng.below(tmax as u64 + 1) as usize } else { tmax };
             *wi = (0..len)
                 .map(|_| match rng.below(5) {
-                    0 => 10f64.powf(4.0 * rng.f64_unit()),
-                    1 => -rng.f64_unit(),
+                    0 | 1 => 10f64.powf(4.0 * rng.f64_unit()),
+                    2 => -rng.f64_unit(),
                     _ => 0.0,
                 })
                 .collect();
@@ -457,16 +458,25 @@ pub fn generate(s: &mut Session, thorough: bool) -> bool {
             };
             let t = rng.below(tmax as u64) as usize;
             let b = 10f64.powf(1.0 + 3.0 * rng.f64_unit());
-            let shape: &[f64] = if i % 2 == 0 { &[0.4, 1.0, 0.3] } else { &[0.2, 0.6, 1.0, 0.7, 0.1] };
+            // peaked shapes, plateaus (`middle > first` must be strict) and a zero neighbour
+            // (`first > 0.0` must be strict)
+            let shape: &[f64] = match i % 6 {
+                0 | 1 => &[0.4, 1.0, 0.3],
+                2 => &[0.2, 0.6, 1.0, 0.7, 0.1],
+                3 => &[1.0, 1.0, 0.3],
+                4 => &[0.3, 1.0, 1.0],
+                _ => &[0.0, 1.0, 0.5, 0.2],
+            };
+            let jitter = i % 6 < 3;
             let half = shape.len() / 2;
             for (d, f) in shape.iter().enumerate() {
                 let r = centre as isize + d as isize - half as isize;
                 if r < 0 || r >= TPC_PAD_ROWS as isize {
                     continue;
                 }
-                let v = rows.entry(r as usize).or_insert_with(|| vec![0.0; rng.range(0, tmax as u64) as usize]);
+                let v = rows.entry(r as usize).or_insert_with(|| vec![0.0; if rng.below(4) == 0 { rng.range(0, tmax as u64) as usize } else { tmax }]);
                 if t < v.len() {
-                    v[t] += b * f * (0.9 + 0.2 * rng.f64_unit());
+                    v[t] += if jitter { b * f * (0.9 + 0.2 * rng.f64_unit()) } else { b * f };
                 }
             }
         }
@@ -487,6 +497,7 @@ pub fn generate(s: &mut Session, thorough: bool) -> bool {
         let (imp, why) = match guarded(|| verif_match_column_inputs(indices, &wire_inputs, &pad_inputs)) {
             Ok(av) => {
                 let mut sres = format!("ok {}", av.len());
+                match_total += av.len();
                 let mut why = None;
                 for a in &av {
                     let w = phi_to_wire0.get(&a.phi.value.to_bits()).copied();
@@ -502,6 +513,7 @@ pub fn generate(s: &mut Session, thorough: bool) -> bool {
         };
         s.push_oracle("match-column", req, imp, why);
     }
+    s.notes.insert("match_column_avalanches".into(), match_total.into());
 
     // (iii) rotation of whole events, all 31 non-trivial rotations
     let b = Builder { wire_resp: verif_wire_response(), pad_resp: verif_pad_response() };
@@ -548,14 +560,7 @@ pub fn generate(s: &mut Session, thorough: bool) -> bool {
             let (ws, ps) = b.event(&mut rng, &wires, 0.0, false);
             rotation_case(s, "rot-255-wires", &ws, &ps, &[1, 7, 16, 31], &phi_to_wire, &mut total);
         }
-        // the full ring
-        {
-            let wires: Vec<usize> = (0..n).collect();
-            let (ws, ps) = b.event(&mut rng, &wires, 0.0, false);
-            rotation_case(s, "rot-full-ring", &ws, &ps, &all_k, &phi_to_wire, &mut total);
-        }
     }
-    s.notes.insert("rotation_base_avalanches".into(), total.into());
 
     // (iv) mirror in z
     let mut mtotal = 0usize;
@@ -596,8 +601,8 @@ pub fn generate(s: &mut Session, thorough: bool) -> bool {
             (Ok(bv), Ok(mv)) => {
                 let mut zb: Vec<(u64, f64)> = bv.iter().map(|a| (a.wire_amplitude.to_bits(), a.z.value)).collect();
                 let mut zm: Vec<(u64, f64)> = mv.iter().map(|a| (a.wire_amplitude.to_bits(), -a.z.value)).collect();
-                zb.sort_by(|x, y| x.partial_cmp(y).unwrap());
-                zm.sort_by(|x, y| x.partial_cmp(y).unwrap());
+                zb.sort_by(|x, y| x.0.cmp(&y.0).then(x.1.total_cmp(&y.1)));
+                zm.sort_by(|x, y| x.0.cmp(&y.0).then(x.1.total_cmp(&y.1)));
                 let same = zb.len() == zm.len() && zb.iter().zip(&zm).all(|(x, y)| x.0 == y.0 && (x.1 - y.1).abs() <= 1e-9);
                 format!("equal pad amplitudes: {} avalanches, mirror-symmetric pairing: {same}; original z {:?}, mirrored -z {:?}", zb.len(), zb.iter().map(|x| x.1).collect::<Vec<_>>(), zm.iter().map(|x| x.1).collect::<Vec<_>>())
             }
@@ -605,6 +610,14 @@ pub fn generate(s: &mut Session, thorough: bool) -> bool {
         };
         s.notes.insert("mirror_tie_probe".into(), note.into());
     }
+    // (vi) the full ring, last: the report lists only the first 50 oracle failures, so the
+    // known full-ring failures (finding F4) must not crowd out any other failure
+    for _ in 0..reps {
+        let wires: Vec<usize> = (0..n).collect();
+        let (ws, ps) = b.event(&mut rng, &wires, 0.0, false);
+        rotation_case(s, "rot-full-ring", &ws, &ps, &all_k, &phi_to_wire, &mut total);
+    }
+    s.notes.insert("rotation_base_avalanches".into(), total.into());
     true
 }
 
